@@ -276,6 +276,7 @@ KNOWN_COLUMN = {
     ("pandas", "_data_algebra_temp_g"): ("pandas_base.PandasModelBase._extend_step", "ExtendNode"),
     ("polars", "*_da_join_tmp_key"): ("polars_model.PolarsModel._natural_join_step", "NaturalJoinNode"),
     ("polars", "*_da_right_tmp"): ("polars_model.PolarsModel._natural_join_step", "NaturalJoinNode"),
+    ("polars", "*_da_left_tmp"): ("polars_model.PolarsModel._natural_join_step", "NaturalJoinNode"),  # right joins swap the frames and use this suffix
     ("polars", "_da_extend_temp_partition_column"): ("polars_model.PolarsModel._extend_step", "ExtendNode"),
     ("polars", "_da_project_temp_group_by_column"): ("polars_model.PolarsModel._project_step", "ProjectNode"),
     ("polars", "_da_temp_one_column"): ("polars_model.ExpressionRequirementsCollector.add_in_temp_columns", "ExtendNode|ProjectNode"),
